@@ -117,7 +117,7 @@ func (u *Unit) execCall(st *State, instr ssa.Instruction, common *ssa.CallCommon
 	resTypes := resultTypes(sig)
 	if c == nil {
 		if callee != nil && callee.Signature.Recv() != nil && len(args) > 0 && u.eng.inRepo(calleePkg(callee)) {
-			if _, isPtr := callee.Params[0].Type().Underlying().(*types.Pointer); isPtr {
+			if _, isPtr := callee.Params[0].Type().Underlying().(*types.Pointer); isPtr && !nilGuarded(callee) {
 				u.oblige(st, "safety", instr.Pos(), not(eq(args[0], intLit(0))), "nil receiver for "+shortName(name), u.safetyTags())
 				st.assume(not(eq(args[0], intLit(0))))
 			}
